@@ -53,8 +53,16 @@ Definition qmin (a b : Q) : Q := if Qle_bool a b then a else b.
 Definition list_max (d : Q) (l : list Q) : Q := fold_left qmax l d.
 Definition list_min (d : Q) (l : list Q) : Q := fold_left qmin l d.
 
-(* M = (max(Us) - min(Ls)) * 2   (empty list: Python raises; the model is only used with >= 1 piece) *)
+(* M = max((max(Us) - min(Ls)) * 2, max(constants) - min(constants))
+   (empty list: Python raises; the model is only used with >= 1 piece) *)
 Definition pwc_M (ps : list piece) : Q :=
+  match ps with
+  | [] => 0%Q
+  | p0 :: r => qmax ((list_max (pU p0) (map pU r) - list_min (pL p0) (map pL r)) * 2)%Q
+                    (list_max (pC p0) (map pC r) - list_min (pC p0) (map pC r))%Q
+  end.
+(* the value used before the fix (kept for the _refuted witness of the old behaviour) *)
+Definition pwc_M_old (ps : list piece) : Q :=
   match ps with
   | [] => 0%Q
   | p0 :: r => ((list_max (pU p0) (map pU r) - list_min (pL p0) (map pL r)) * 2)%Q
